@@ -24,7 +24,7 @@ type zzvPMCEnv struct {
 	completions          int
 	history              [][]bool // written flags of every request so far (completion k refers to request k)
 	memLifo              bool     // memories answer in reverse order
-	stall                bool     // memories accept a request only every third round (back-pressure on the local memory ports)
+	stall                int      // 1: both memories accept a request only every third round (back-pressure on the local memory ports); 2: only the destination memory does (write requests pile up behind a failed send)
 	tick                 int
 }
 
@@ -83,9 +83,10 @@ func (e *zzvPMCEnv) round(drainCtrl bool) {
 		}
 	}
 	e.tick++
-	accept := !e.stall || e.tick%3 == 0
+	accept := e.stall == 0 || e.tick%3 == 0
+	acceptB := e.stall != 1 || e.tick%3 == 0
 	// memory of GPU B: reads of the source page
-	if !accept {
+	if !acceptB {
 	} else if m := e.b.localMemPort.RetrieveOutgoing(); m != nil {
 		r, ok := m.(*mem.ReadReq)
 		verif.Assert(ok, "the owning GPU's memory received something other than a read (source page must not be modified)")
@@ -183,7 +184,7 @@ func VerifPMC() {
 	e.lifo = verif.Choice(2) == 1
 	lateCtrl := verif.Choice(2) == 1
 	e.memLifo = verif.Choice(2) == 1
-	e.stall = verif.Choice(2) == 1
+	e.stall = verif.Choice(3)
 	nReq := verif.Param("migrations", 2)
 	total := 0
 	for r := 0; r < nReq; r++ {
